@@ -68,9 +68,10 @@ Fixpoint dec_ltrace (std : bool) (ops : list (lop Z)) (l : list Z) : option (ltr
       | None => None
       end
   end.
+Definition is_panic (l : list Z) : bool := match l with [x] => x =? PANIC | _ => false end.
 Definition dec_lout (std : bool) (ops : list (lop Z)) (l : list Z) : option (res (ltrace Z)) :=
+  if is_panic l then Some Heap.Panic else
   match l with
-  | [-1000001] => Some Heap.Panic
   | _ => match dec_vals l with
          | Some (s0, l1) => match dec_ltrace std ops l1 with Some tr => Some (Ok ((ONone Z, s0) :: tr)) | None => None end
          | None => None
@@ -126,10 +127,8 @@ Fixpoint dec_htrace (ops : list (hop Z)) (l : list Z) : option (htrace Z) :=
       end
   end.
 Definition dec_hout (ops : list (hop Z)) (l : list Z) : option (res (htrace Z)) :=
-  match l with
-  | [-1000001] => Some Heap.Panic
-  | _ => match dec_htrace ops l with Some tr => Some (Ok tr) | None => None end
-  end.
+  if is_panic l then Some Heap.Panic else
+  match dec_htrace ops l with Some tr => Some (Ok tr) | None => None end.
 
 (* ---- entry ---- *)
 Inductive case :=
